@@ -93,6 +93,7 @@ type CheckResult struct {
 	Reports     []*FuncReport
 	Obls        []*Obligation
 	Violations  []string
+	KnownObls   map[string]bool
 	Known       []string
 	Undecided   []*Obligation
 	Bounded     []BoundedResult
@@ -246,6 +247,10 @@ func cmdCheck(args []string) {
 		if f := isKnown(o.Name); f != nil {
 			line := fmt.Sprintf("KNOWN-FINDING: %s", f.Text)
 			res.Known = append(res.Known, line)
+			if res.KnownObls == nil {
+				res.KnownObls = map[string]bool{}
+			}
+			res.KnownObls[o.Name] = true
 			fmt.Println(line)
 			continue
 		}
@@ -295,7 +300,7 @@ func cmdCheck(args []string) {
 			reproduced := false
 			var lastDetail = map[*Obligation]string{}
 			for _, o := range g.obls {
-				if o.Status != "failed" || o.Model == "" || tries >= 4 {
+				if (o.Status != "failed" && o.Pre == nil) || o.Model == "" || tries >= 4 {
 					continue
 				}
 				k, ok := keyOf[o.Func]
@@ -305,6 +310,9 @@ func cmdCheck(args []string) {
 				tries++
 				rp := p.Replay(k, o, prop, replayDir)
 				lastDetail[o] = rp.Detail
+				if o.Note == "" || strings.HasPrefix(o.Note, "candidate") {
+					o.Note = "replay: " + rp.Detail
+				}
 				if rp.Reproduced {
 					line := fmt.Sprintf("VIOLATION property=%s replay=%s", prop, rp.File)
 					v.viol = append(v.viol, line+"  # "+o.Name+": "+rp.Detail)
@@ -387,7 +395,7 @@ func cmdCheck(args []string) {
 	fmt.Printf("%s %s: %d functions under contract, %d/%d obligations discharged, %d undecided, %d known findings, %d violations, %.1fs\n",
 		prop, tier, len(res.Reports), nd, len(res.Obls), len(res.Undecided), len(res.Known), len(res.Violations), wall)
 	for _, u := range res.Undecided {
-		fmt.Printf("  undecided: %s (%s, %s)\n", u.Name, u.Status, u.Solver)
+		fmt.Printf("  undecided: %s (%s, %s) %s\n", u.Name, u.Status, u.Solver, u.Note)
 	}
 	if len(res.ToolTrouble) > 0 && exit == 0 {
 		for _, t := range res.ToolTrouble {
@@ -427,7 +435,7 @@ func writeEvidence(p *Program, res *CheckResult, dir string, wall float64, timeo
 			if o.Kind == "cover" {
 				continue
 			}
-			if o.Status != "discharged" && undecidedSet0[o.Name] {
+			if o.Status != "discharged" && (undecidedSet0[o.Name] || res.KnownObls[o.Name]) {
 				continue
 			}
 			fe.Obligations++
@@ -458,8 +466,8 @@ func writeEvidence(p *Program, res *CheckResult, dir string, wall float64, timeo
 			}
 			continue
 		}
-		if o.Status != "discharged" && undecidedSet[o.Name] {
-			continue // attempted, undecided: reported separately, never counted as an obligation of the claim
+		if o.Status != "discharged" && (undecidedSet[o.Name] || res.KnownObls[o.Name]) {
+			continue // attempted, undecided (or a listed known finding): reported separately, never counted as an obligation of the claim
 		}
 		total++
 		if o.Status == "discharged" {
